@@ -24,7 +24,9 @@ CFG_FULL = {"values": (3, 5), "templates": ("mul2", "add"), "iops": (("add", ("l
 CFG_MIX = {"values": (3,), "index_values": (1,), "templates": ("mul2", "total", "dyn", "dbl"),
            "setc": True, "funs": ("F1",), "knobs": ("K1",)}
 CFG_REDUCED = {"values": (3,), "templates": ("mul2", "inc"), "unreg": True}
-ALPHABETS = {"full": CFG_FULL, "mix": CFG_MIX, "reduced": CFG_REDUCED}
+# a user function inside the expressions: its call is a fault point of the EVALUATION kind (raises a ZeroDivisionError subclass)
+CFG_EVAL = {"values": (3,), "templates": ("mul2", "flaky"), "unreg": True}
+ALPHABETS = {"full": CFG_FULL, "mix": CFG_MIX, "reduced": CFG_REDUCED, "eval": CFG_EVAL}
 
 
 def defs_of(m):
@@ -58,7 +60,7 @@ class System(ManagerSystem):
             issues.append(self.issue("violation", hist, op, f"{label}: verify() raised {type(e).__name__}", {"fail_at_write": k}))
         return issues
 
-    def fault_runs(self, hist, op, ms, ns, ex, W, n, pre_defs, post_defs, comparable):
+    def fault_runs(self, hist, op, ms, ns, ex, W, n, pre_defs, post_defs, comparable, kinds=None):
         issues = []
         st = {"fault_runs": 0, "fault_on_dependant_write": 0, "double_fault_runs": 0, "repeats": 0}
         rep = self.repeat_op(op, ns)
@@ -80,7 +82,8 @@ class System(ManagerSystem):
                                          f"the failure of write #{k} did not reach the caller "
                                          f"({'no exception' if exc is None else type(exc).__name__})", info))
                 continue
-            if w.trace.events != W[:k]:
+            nwrites = k if kinds is None else sum(1 for x in kinds[:k] if x == "w")
+            if w.trace.events != W[:nwrites]:
                 issues.append(self.issue("violation", hist, op,
                                          f"writes before the failing write #{k} are not the fault-free prefix", info))
             d = defs_of(w.m)
@@ -156,12 +159,14 @@ class System(ManagerSystem):
             if ex.assigned is not None and exc is None:
                 W = list(w.trace.events)
                 n = w.trace.count
+                kinds = list(w.trace.kinds)
                 stats["write_counts"][n] = stats["write_counts"].get(n, 0) + 1
                 try:
                     comparable = v.kind == "ok" and not mgr.order_underdetermined(ns, ex.trigger)
                     if not comparable:
                         stats["repeat_not_compared_order_underdetermined"] = stats.get("repeat_not_compared_order_underdetermined", 0) + 1
-                    fi, st = self.fault_runs(hist, op, ms, ns, ex, W, n, pre_defs, defs_of(w.m), comparable)
+                    fi, st = self.fault_runs(hist, op, ms, ns, ex, W, n, pre_defs, defs_of(w.m), comparable, kinds)
+                    st["evaluation_fault_points"] = sum(1 for x in kinds if x == "e")
                 except Exception as e:  # noqa
                     import traceback
                     fi, st = [self.issue("violation", hist, op, f"{type(e).__name__} during fault enumeration: {e}",
@@ -189,10 +194,10 @@ def plan(tier, seed):
     jobs = []
     if tier == "quick":
         runs = [("W-nest", "full", 2, False), ("W-nest-4", "reduced", 3, False), ("W-mix", "mix", 2, False),
-                ("W-flat", "full", 2, True)]
+                ("W-flat", "full", 2, True), ("W-nest-4", "eval", 3, False), ("W-flat", "eval", 2, True)]
     else:
         runs = [("W-nest", "full", 3, False), ("W-nest-4", "reduced", 4, False), ("W-mix", "mix", 3, False),
-                ("W-flat", "full", 3, True), ("W-nest", "full", 2, True)]
+                ("W-flat", "full", 3, True), ("W-nest", "full", 2, True), ("W-nest-4", "eval", 4, False), ("W-flat", "eval", 3, True)]
     for hs in seeds:
         for wname, alpha, depth, double in runs:
             jobs.append({"name": f"faults:{wname}:{alpha}:d{depth}:{'double' if double else 'single'}:seed{hs}",
